@@ -157,9 +157,11 @@ var wantOps = []wantOp{
 	{"put", "/beta/things", "UpdateBeta", "Beta", false, "schemeD[read]", nil, "required", "200", nil},
 	{"get", "/beta/things", "ListBeta", "Beta", false, "schemeD[read]", []string{"filter:query:true", "rank:query:true"}, "", "200", nil},
 	{"patch", "/beta/things/{thingId}/", "PatchBeta", "Beta", false, "schemeD[read]", []string{"thingId:path:true"}, "optional", "202", []string{"409", "422"}},
+	{"get", "/alpha/count", "CountAlpha", "Alpha", false, "schemeA[read]", nil, "", "200", nil},
+	{"put", "/gamma/receipts", "FileReceipt", "Gamma", false, "schemeD[read]", nil, "required", "200", nil},
 	{"post", "/gamma/widgets", "CreateWidget", "Gamma", false, "schemeD[read]", nil, "required", "200", []string{"500"}},
 	{"get", "/gamma/widgets/names", "ListWidgetNames", "Gamma", false, "schemeD[read]", []string{"colour:query:true"}, "", "200", nil},
-	{"post", "/gamma/receipts/{serial}", "IssueReceipt", "Gamma", false, "schemeD[read]", []string{"serial:path:true"}, "", "201", nil},
+	{"post", "/gamma/receipts/{serial}", "IssueReceipt", "Gamma", false, "schemeD[read]", []string{"serial:path:true"}, "", "201", []string{"201"}},
 }
 
 func checkOperations(doc specDoc, version string, report func(class, msg string)) {
@@ -254,13 +256,23 @@ func checkOperations(doc specDoc, version string, report func(class, msg string)
 			}
 		}
 		codes = annotated
-		want := append([]string{w.success}, w.errors...)
+		wantSet := map[string]bool{w.success: true}
+		for _, e := range w.errors {
+			wantSet[e] = true // an error response may share the success code: one entry in the document
+		}
+		var want []string
+		for c := range wantSet {
+			want = append(want, c)
+		}
 		sort.Strings(want)
 		if fmt.Sprint(codes) != fmt.Sprint(want) {
 			report("C06-responses", fmt.Sprintf("%s: %s responses %v, want %v", version, key, codes, want))
 		}
 	}
 	for extra := range seen {
+		if strings.Contains(extra, "/zeta") {
+			report("C20-glob-excluded-controller", fmt.Sprintf("%s: %s comes from ctl/zeta_excluded.go, a file controllerGlobs does not match", version, extra))
+		}
 		report("C01-operation-extra", fmt.Sprintf("%s: %s is documented but not annotated (or hidden)", version, extra))
 	}
 }
@@ -320,6 +332,9 @@ func checkComponents(doc specDoc, version string, report func(class, msg string)
 	}
 	if got, want := props("BetaBody"), []string{"count", "note", "rank"}; fmt.Sprint(got) != fmt.Sprint(want) {
 		report("C07-properties", fmt.Sprintf("%s: BetaBody properties %v, want %v", version, got, want))
+	}
+	if got, want := props("Widget"), []string{"H", "W", "colour", "title"}; fmt.Sprint(got) != fmt.Sprint(want) {
+		report("C07-properties", fmt.Sprintf("%s: Widget properties %v, want %v (fields declared together are all properties)", version, got, want))
 	}
 	if got, want := strs(dig(schemas["AlphaBody"], "required")), []string{"name"}; fmt.Sprint(got) != fmt.Sprint(want) {
 		report("C07-required", fmt.Sprintf("%s: AlphaBody required %v, want %v", version, got, want))
@@ -393,6 +408,13 @@ func TestVerifSpecAgainstAnnotations(t *testing.T) {
 				}
 				sort.Strings(codes)
 				out["responseCodes "+key] = fmt.Sprint(codes)
+				for _, c := range codes {
+					if c == "default" {
+						continue
+					}
+					r := dig(op, "responses", c)
+					out["response "+key+" "+c] = fmt.Sprintf("description=%q schema=%v", strings.TrimSpace(fmt.Sprint(dig(r, "description"))), dig(r, "content", "application/json", "schema", "$ref"))
+				}
 			}
 		}
 		schemas, _ := dig(doc, "components", "schemas").(map[string]any)
